@@ -116,6 +116,7 @@ PROPS["C13"] = dict(
 		H("print::c13_p2_object_k2", "ext", "thorough", 3600, _OPT_P2 + "; keys: any char", "k=2, unwind 6, 96-byte sink"),
 		H("print::c08_string_literal_1char", "ext", "quick", 900, "c: any Unicode scalar value (1,112,064 one-character strings)", "unwind 6"),
 		H("print::c08_string_literal_2chars", "ext", "quick", 900, "c1, c2 from a 12-character escape-relevant alphabet", "unwind 6"),
+		H("print::c13_indent_is_depth_times_unit", "ext", "quick", 900, "indent unit Spaces(n)|Tabs(n), n <= 24, depth <= 4, n*depth <= 96; probe index symbolic", "unwind 26"),
 	],
 )
 
@@ -177,10 +178,17 @@ S1 = [H(_PV + "s1_array_start_n%d" % n, "in", "quick", 600, "%d characters, each
      [H(_PV + "s1_array_continue_n%d" % n, "in", "quick", 600, "%d characters, each any Unicode scalar value; base offset; index (0..2) and start of the open array entry in a 3-entry code map" % n, "n=%d, unwind %d" % (n, max(n + 2, 5))) for n in range(0, 4)] + \
      [H(_PV + "s1_object_start_n%d" % n, "in", "quick", 1800, "%d characters, each any Unicode scalar value; base offset; context" % n, "n=%d, unwind %d" % (n, max(n + 2, 5)), gb=4.0) for n in range(0, 5)] + \
      [H(_PV + "s1_object_continue_n%d" % n, "in", "quick", 1800, "%d characters, each any Unicode scalar value; base offset" % n, "n=%d, unwind %d" % (n, max(n + 2, 5)), gb=4.0) for n in range(0, 5)] + \
-     [H(_PV + "s1_object_start_shaped", "in", "quick", 1800, "'{' ws? '\"' c '\"' ws? x: optional whitespace characters (any of the four), key character c any scalar >= U+0020 except quote/backslash, terminator x any non-whitespace; base offset; options", "unwind 4", gb=4.0),
+     [H(_PV + "s1_object_start_shaped", "in", "quick", 1800, "'{' ws? '\"' c '\"' ws? x: optional whitespace characters (any of the four), key character c any scalar >= U+0020 except quote/backslash, terminator x any non-whitespace; base offset; options", "unwind 5", gb=4.0),
       H(_PV + "s1_object_continue_shaped", "in", "quick", 1800, "ws? sep ws? '\"' c '\"' ws? x: sep any non-whitespace, c as above, x any non-whitespace; base offset; options; index and start of the open object entry", "unwind 5", gb=4.0)]
 L5 = [H("utf8::l5_null_slice_n%d" % n, "ext", "quick" if n <= 4 else "thorough", 1800, "%d bytes, each any value 0..=255, through <() as Parse>::parse_slice" % n, "n=%d, unwind 7" % n, gb=3.0) for n in range(1, 6)]
 
+
+
+L5W = [H("utf8::l5_null_slice_with_n%d" % n, "ext", "quick" if n in (3, 5) else "thorough", 1800, "%d bytes, each any value 0..=255, through <() as Parse>::parse_slice_with with both option flags symbolic" % n, "n=%d, unwind 7" % n, gb=3.0) for n in range(2, 6)]
+_EPS = ["parse_str", "parse_str_with", "parse_infallible_utf8", "parse_utf8_infallible_with", "parse_utf8", "parse_utf8_with", "parse_infallible", "parse_infallible_with", "parse", "parse_with"]
+EP = [H("utf8::ep_null_" + e_, "ext", "quick", 900, "5 ASCII bytes (each 0..=127) through <() as Parse>::%s; both option flags symbolic" % e_, "n=5, unwind 7") for e_ in _EPS]
+EPS = [H("utf8::ep_string_" + e_, "ext", "quick", 900, "the document \"\\uXXXX\" with all four hex digit values and their case symbolic (every code unit) through <SmallString as Parse>::%s; both option flags symbolic" % e_, "unwind 10", gb=3.0) for e_ in _EPS]
+P0 = [H("parse::verif::p0_position_advances_by_source_length", "in", "quick", 600, "3 characters (any scalar values) each with an arbitrary SOURCE length 1..=4 (DecodedChar::new), base offset", "unwind 5")]
 
 
 # ---------------------------------------------------------------------------
@@ -219,7 +227,7 @@ PROPS["C01"] = dict(
 	functions=_PARSE_FUNCS, bounds="literals: <= 6 chars; numbers: <= 6 (quick) / 8 (thorough) chars; strings: <= 4 (quick) / 5 (thorough) fully symbolic chars, 6-8 chars over a 12-character alphabet (thorough); fragments: <= 4 fully symbolic chars plus shaped key inputs; byte input: <= 5 bytes",
 	outside=_OUTSIDE_PARSE, stubs=[STUB_GROW], assumptions=_PARSE_ASSUME,
 	harnesses=L1 + L2 + pick(L3, names("l3_number_n", range(0, 7)), "rest") + pick(L4, names("l4_string_n", range(0, 5)), "rest")
-	+ pick(L4A, [], "rest") + S1 + pick(L5, names("l5_null_slice_n", (1, 3, 5)), "rest"),
+	+ pick(L4A, [], "rest") + S1 + pick(L5, names("l5_null_slice_n", (1, 3, 5)), "rest") + L5W + EP,
 )
 
 PROPS["C02"] = dict(
@@ -240,7 +248,8 @@ PROPS["C05"] = dict(
 	functions=_PARSE_FUNCS, bounds="as C01 units; base offset <= 2^20; 1..=3 pre-existing code-map entries",
 	outside=_OUTSIDE_PARSE + ["closing of object-entry fragments (value.rs:157) and whole-map pre-order/volume consistency"], stubs=[STUB_GROW], assumptions=_PARSE_ASSUME,
 	harnesses=pick(S1, [h["name"].split("::")[-1] for h in S1]) + pick(L2, ["l2_bool_n4", "l2_bool_n5", "l2_null_n4"])
-	+ pick(L3, names("l3_number_n", (1, 3, 5)), ["l3_number_n7"]) + pick(L4, names("l4_string_n", (2, 3)), ["l4_string_n4"]) + pick(SH, ["c12_rr"]),
+	+ pick(L3, names("l3_number_n", (1, 3, 5)), ["l3_number_n7"]) + pick(L4, names("l4_string_n", (2, 3)), ["l4_string_n4"]) + pick(SH, ["c12_rr", "c12_h", "c12_hr"]) + P0
+	+ pick(EP, ["ep_null_parse_str", "ep_null_parse_infallible"], "rest"),
 )
 
 PROPS["C07"] = dict(
@@ -250,7 +259,7 @@ PROPS["C07"] = dict(
 	functions=_PARSE_FUNCS, bounds="as C01 units",
 	outside=_OUTSIDE_PARSE, stubs=[STUB_GROW], assumptions=_PARSE_ASSUME,
 	harnesses=L2 + pick(L3, names("l3_number_n", range(0, 7)), "rest") + pick(L4, names("l4_string_n", range(0, 5)), "rest") + pick(L4A, [], "rest")
-	+ S1 + pick(L5, names("l5_null_slice_n", (1, 2, 3, 4)), "rest") + pick(SH, ["c12_h", "c12_l", "c12_ho", "c12_hr", "c12_he", "c12_lh"], ["c12_hh", "c12_hhl", "c12_h_open", "c12_hl_open"]),
+	+ S1 + pick(L5, names("l5_null_slice_n", (1, 2, 3, 4)), "rest") + pick(L5W, ["l5_null_slice_with_n3"], "rest") + pick(EP, ["ep_null_parse_str", "ep_null_parse_utf8_with", "ep_null_parse_infallible_with"], "rest") + P0 + pick(SH, ["c12_h", "c12_l", "c12_ho", "c12_hr", "c12_he", "c12_lh"], ["c12_hh", "c12_hhl", "c12_h_open", "c12_hl_open"]),
 )
 
 PROPS["C12"] = dict(
@@ -259,16 +268,17 @@ PROPS["C12"] = dict(
 	level_note="String unit in value and key position (the key parser is the same function; the object fragment harnesses run it in key position with symbolic options). Documents as wholes are outside the claim.",
 	functions=_PARSE_FUNCS, bounds="<= 2 elements (quick), selected 3-element sequences (thorough); all other units as in C01",
 	outside=_OUTSIDE_PARSE, stubs=[STUB_GROW], assumptions=_PARSE_ASSUME,
-	harnesses=pick(SH, ["c12_" + x for x in _S1 + _S2], "rest") + pick(D1, ["d1_escape_any"], "rest") + pick(L2, ["l2_bool_n4", "l2_null_n4"])
+	harnesses=pick(SH, ["c12_" + x for x in _S1 + _S2], "rest") + pick(D1, ["d1_escape_any"], "rest") + pick(L2, ["l2_bool_n4", "l2_null_n4"]) + EPS
 	+ pick(L3, ["l3_number_n3"]) + pick(S1, ["s1_array_start_n2", "s1_array_continue_n2", "s1_object_start_shaped", "s1_object_continue_shaped"]) + pick(L4, ["l4_string_n3"], ["l4_string_n4"]),
 )
 
 # ---------------------------------------------------------------------------
 _OV = "object::verif::"
 _OBJ = "object with key-equality pattern '%s' built directly from an entry vector (key identities: symbolic permutation of {a,b,c,''}; values symbolic over 4 scalars) plus the harness-built canonical index"
-I3 = [H(_OV + "i3_object_op_" + p_, "in", "quick", 2400,
-        (_OBJ % p_) + "; one operation symbolic over push / push_front / insert / remove_at / remove(key) / remove_unique with symbolic key, value, position and (for the removal iterators) consumed / partially consumed / dropped",
-        "unwind 6", gb=6.0) for p_ in ("empty", "a", "aa", "ab")]
+_I3OPS = ["push", "push_front", "insert", "remove_at", "remove", "remove_unique"]
+I3 = [H(_OV + "i3_%s_%s" % (o_, p_), "in", "quick", 1500,
+        (_OBJ % p_) + "; operation %s with symbolic key, value, position and (for the removal iterators) consumed / partially consumed / dropped" % o_,
+        "unwind 6", gb=5.0) for p_ in ("empty", "a", "aa", "ab") for o_ in _I3OPS]
 PROPS["C06"]["harnesses"] = I1 + I2 + I3
 PROPS["C06"]["functions"] += ["Object::{push,push_entry,push_front,push_entry_front,insert,remove_at,remove,remove_unique,len,is_empty,contains_key,index_of,redundant_index_of,indexes_of,get,get_entries_with_index,get_unique}",
                               "RemovedByInsertion/RemovedEntries iterators and their Drop"]
@@ -278,6 +288,8 @@ C09H = [H(_OV + "c09_member_order_is_utf16_1char", "in", "quick", 600, "two one-
 C10H = [H(_OV + "c10_comparator_is_a_total_order", "in", "quick", 1800, "three entries, keys of 0..=2 arbitrary characters, values over {null,false,true}", "unwind 8", gb=4.0),
         H(_OV + "c10_canonicalize_leaves_non_number_scalars_alone", "in", "quick", 600, "null / any boolean / any string of 0..=2 arbitrary characters", "unwind 6")]
 C08S = [h for h in PROPS["C13"]["harnesses"] if "c08_" in h["name"]]
+I3S = [H(_OV + "i3_sort_" + p_, "in", "quick", 1800, (_OBJ % p_) + " with null values; Object::sort", "unwind 6", gb=5.0) for p_ in ("ab", "aa")]
+PROPS["C06"]["harnesses"] = PROPS["C06"]["harnesses"] + I3S
 
 PROPS["C09"] = dict(
 	design_ref="DESIGN.md §4 C09",
@@ -302,7 +314,8 @@ PROPS["C10"] = dict(
 )
 
 C14O = [H(_OV + "c14_index_independence_" + p_, "in", "quick", 2400, (_OBJ % p_) + " vs. the same entries with an EMPTY index, and vs. the same keys with other symbolic values", "unwind 10", gb=6.0) for p_ in ("empty", "a", "aa", "ab")] + \
-       [H(_OV + "c14_clone_" + p_, "in", "quick", 2400, _OBJ % p_, "unwind 6", gb=6.0) for p_ in ("a", "aa", "ab")]
+       [H(_OV + "c14_clone_" + p_, "in", "quick", 2400, _OBJ % p_, "unwind 6", gb=6.0) for p_ in ("a", "aa", "ab")] + \
+       [H(_OV + "c14_prefix_" + p_, "in", "quick", 1800, (_OBJ % p_) + " vs. its strict prefix (one entry fewer)", "unwind 10", gb=5.0) for p_ in ("a", "ab", "aa")]
 C14E = [H("order::c14_laws_scalars", "ext", "quick", 1800, "three scalars: null / any boolean / number from 6 spellings / string of 0..=2 arbitrary characters", "unwind 10", gb=4.0),
         H("order::c14_laws_value_slices", "ext", "quick", 2400, "three [Value] slices of length 0..=2 over scalars with strings of <= 1 arbitrary character", "unwind 10", gb=6.0),
         H("order::c14_laws_entries", "ext", "quick", 1800, "three entries: keys of 0..=2 arbitrary characters, values null / boolean / number", "unwind 10", gb=4.0),
@@ -322,21 +335,29 @@ PROPS["C14"] = dict(
 C11H = [H(_OV + "c11_array_iter_mapped_k%d" % k, "in", "quick", 900, "%d items; code map of 16 entries with arbitrary volumes except the children's roots, whose volumes are symbolic 1..=3; container offset 0..=2" % k, "k=%d, unwind 18" % k) for k in range(0, 4)] + \
        [H(_OV + "c11_object_mapped_" + p_, "in", "quick", 2400, "object with key-equality pattern '%s' (key identities symbolic); value volumes symbolic 1..=3; container offset 0..=1; query key symbolic (present / duplicated / absent)" % p_, "unwind 18", gb=6.0) for p_ in ("empty", "a", "aa", "ab", "aaa", "aba", "abb", "abc")]
 
+C11F = [H("frag::c11_get_fragment_leaf", "ext", "quick", 600, "a leaf value of symbolic kind (null / boolean / empty array / empty object), index symbolic < 2^30", "unwind 4")] + \
+       [H("frag::c11_get_array_fragment_k%d" % k, "ext", "quick", 900, "%d items, each a leaf of symbolic kind (null / boolean / empty array / empty object), on the stack; index symbolic < 2^30" % k, "k=%d, unwind 6" % k) for k in range(0, 5)] + \
+       [H("frag::c11_entry_get_fragment", "ext", "quick", 600, "entry with key '' or 'k' and a leaf value of symbolic kind; index symbolic", "unwind 4")]
+
+C11F = C11F + [H(_OV + "c11_vec_try_from_json_reports_the_offending_fragment", "in", "quick", 1800, "Vec<bool>::try_from_json_at on a heap array of 3 scalars; code-map volumes of the items symbolic 1..=3; wrong-kind item at a symbolic position or nowhere; container offset 0..=2", "unwind 18", gb=4.0)]
+
 PROPS["C11"] = dict(
 	design_ref="DESIGN.md §4 C11",
 	level_text="Bounded model checking of the mapped iterators and key-based mapped lookups over code maps built per the C05 specification with children of ARBITRARY size (symbolic volumes: the iterators read only sibling volumes, never descend), for arrays of <= 3 items and objects of <= 3 entries with a symbolic query key.",
 	level_note="Assumes the C05 layout of the code map (checked separately per fragment kind); parsed documents cannot be produced inside a harness. Fragment lookup (get_fragment / traverse / volume) and the TryFromJson conversions on heap shapes are covered only as far as the thorough tier completes; BTreeMap conversion is outside.",
-	functions=["<[Value] as JsonArray>::iter_mapped", "array::IterMapped::next", "Object::{iter_mapped,get_mapped,get_mapped_entries_with_index,get_unique_mapped,get_unique_mapped_entry}", "object::IterMapped::next", "MappedEntries*/MappedValues*::next"],
+	functions=["Value::get_fragment", "get_array_fragment", "Entry::get_fragment", "<[Value] as JsonArray>::iter_mapped", "array::IterMapped::next", "Object::{iter_mapped,get_mapped,get_mapped_entries_with_index,get_unique_mapped,get_unique_mapped_entry}", "object::IterMapped::next", "MappedEntries*/MappedValues*::next"],
 	bounds="<= 3 children per container, child volumes 1..=3, container offset <= 2, code map of 16 entries",
 	outside=["deep heap shapes", "BTreeMap conversion", "get_fragment/traverse/volume on heap values (thorough attempt only)"],
 	stubs=[STUB_GROW], assumptions=["code map laid out as specified by C05: array child i at base+1+sum of earlier volumes; object entry i at base+1+sum of (2+value volume), key at +1, value at +2"],
-	harnesses=C11H,
+	harnesses=C11H + C11F,
 )
 
 # ---------------------------------------------------------------------------
 C08H = C08S + \
        [H("print::c08_compact_%s_k%d" % (t, k), "ext", "quick", 900, "Options::compact() (concrete preset); %d children each one symbolic ASCII byte; keys any Unicode scalar value; depth 0..=2" % k, "k=%d, unwind 6" % k) for t in ("array", "object") for k in (0, 2)] + \
-       [H("print::c08_scalars_print_as_their_token", "ext", "quick", 1800, "scalar: null / any boolean / number from 8 spellings / one-character string (any scalar value); option record fully symbolic (fields 0..=3, all limits)", "unwind 17", gb=4.0)]
+       [H("print::c08_string_from_value_is_compact", "ext", "quick", 1200, "null / true / a one-character string (any Unicode scalar value) through String::from(Value); probe index symbolic", "unwind 10", gb=3.0)] + \
+       [H("print::c08_scalar_" + t, "ext", "quick", 1200, "scalar %s; option record fully symbolic (fields 0..=3, all limits)" % d, "unwind %d" % u, gb=3.0)
+        for t, d, u in (("null", "null", 7), ("bool", "any boolean", 7), ("number", "number from 8 spellings of <= 8 characters", 10), ("string", "one-character string (any Unicode scalar value)", 8))]
 
 PROPS["C08"] = dict(
 	design_ref="DESIGN.md §4 C08",
@@ -362,6 +383,11 @@ PROPS["C04"] = dict(
 	bounds="strings <= 2 characters; numbers <= 6 characters / 8 fixed spellings",
 	outside=["re-parsing of containers (whole-document parsing)", "strings longer than 2 characters"],
 	stubs=[STUB_GROW], assumptions=["the round trip is the composition of two separately decided facts through the reference escaping esc()"],
-	harnesses=C04R + [dict(h, tier="quick") for h in C08S] + pick(C08H, ["c08_scalars_print_as_their_token"]) + pick(L3, names("l3_number_n", (3, 5)), ["l3_number_n8"]) + pick(L2, ["l2_bool_n5", "l2_null_n4"]),
+	harnesses=C04R + [dict(h, tier="quick") for h in C08S] + pick(C08H, ["c08_scalar_null", "c08_scalar_bool", "c08_scalar_number", "c08_scalar_string"]) + pick(L3, names("l3_number_n", (3, 5)), ["l3_number_n8"]) + pick(L2, ["l2_bool_n5", "l2_null_n4"]),
 )
-PROPS["C13"]["harnesses"] = PROPS["C13"]["harnesses"] + pick(C08H, ["c08_scalars_print_as_their_token"])
+# C04: the size pre-computation records exactly the slots the emission consumes (a mismatch makes printing panic or mis-lay out)
+PROPS["C04"]["harnesses"] = PROPS["C04"]["harnesses"] + [dict(h, tier="quick") for h in PROPS["C13"]["harnesses"] if "c13_p1_" in h["name"] or h["name"].split("::")[-1] in ("c13_p2_array_k1", "c13_p2_object_k1")]
+PROPS["C04"]["functions"] += ["print::pre_compute_array_size / pre_compute_object_size (slot accounting)", "print::print_array / print_object (slot consumption)"]
+# C02: key lookups on a parsed object return the entries carrying the key, in source order (index positions stay sorted)
+PROPS["C02"]["harnesses"] = PROPS["C02"]["harnesses"] + pick(I1, ["i1_indexes_2", "i1_indexes_3", "i1_indexes_4"])
+PROPS["C13"]["harnesses"] = PROPS["C13"]["harnesses"] + pick(C08H, ["c08_scalar_null", "c08_scalar_bool", "c08_scalar_number", "c08_scalar_string"])
